@@ -195,7 +195,7 @@ func ruleOverlapAlign(w *World, r *Report) {
 	pos := w.Pos(f.Pos())
 	calls := callsTo(f, func(g *ssa.Function) bool { return funcIs(g, modPath+"/integrate", "ChangeExtendedSpatialIdsZoom") })
 	if len(calls) == 0 {
-		r.add("REUSE", fn+" / alignment calls", pos, Violated, "the overlap check no longer aligns zooms with integrate.ChangeExtendedSpatialIdsZoom")
+		r.add("REUSE", fn+" / alignment calls", pos, Undecided, "the overlap check does not align zooms with integrate.ChangeExtendedSpatialIdsZoom")
 		return
 	}
 	r.add("REUSE", fn+" / alignment calls", pos, Discharged, fmt.Sprintf("%d call site(s) of integrate.ChangeExtendedSpatialIdsZoom", len(calls)))
